@@ -65,12 +65,13 @@ def register(prop, run, KERNELS, C01_COVERS):
     prop("C19",
          quick=[run("C19_open", covers=["done"], nmax=3),
                 run("C19_keyonly", covers=["done", "some-reads"], nmax=2, preop=0),
-                run("C19_keyonly", covers=["done", "some-reads"], nmax=1, preop=1),
+                run("C19_keyonly", covers=["done", "some-reads"], nmax=1, preop=1, withcb=1),
                 run("C19_keyonly", covers=["done", "some-reads"], nmin=3, nmax=3, preop=0, onlyop=8, vlenmin=1),
                 run("C19_race", covers=["done", "preempted"], nmin=1, nmax=1, vlenmin=1, preemptions=1)],
          thorough=[run("C19_open", covers=["done"], nmax=4, klen=1, vlen=1, budget=1800),
                    run("C19_keyonly", covers=["done", "some-reads"], nmax=2, preop=1, budget=1800),
                    run("C19_keyonly", covers=["done", "some-reads"], nmin=3, nmax=3, preop=0, budget=1800),
+                   run("C19_keyonly", covers=["done", "some-reads"], nmin=2, nmax=2, preop=1, withcb=1, vlenmin=1, budget=1800),
                    run("C19_race", covers=["done", "preempted"], nmin=1, nmax=2, vlenmin=1, preemptions=2, budget=1800)],
          outside=["files holding more than 3 / 4 items", "values longer than 2 bytes"],
          text=step_txt + "The harness StoreFile logs every read; the independent decoder supplies the byte ranges of every value and of the root record; assertion: opening reads only the root record (at most 2 reads, none below it), key-only operations issue no read intersecting any value range.",
@@ -132,10 +133,12 @@ def register(prop, run, KERNELS, C01_COVERS):
     prop("C12",
          quick=[run("C12_hist", covers=["done", "final-reopen"], store=1, k=3, opmask=mask(0, 1, 2, 7, 8, 9, 13), final_reopen=1),
                 run("C12_hist", covers=["done"], store=0, k=4, opmask=mask(0, 7, 8, 9), final_reopen=0),
-                run("C12_hist", covers=["done", "final-reopen"], store=1, k=3, opmask=mask(0, 2, 7, 9), final_reopen=1, emptyname=1)],
+                run("C12_hist", covers=["done", "final-reopen"], store=1, k=3, opmask=mask(0, 2, 7, 9), final_reopen=1, emptyname=1),
+                run("C12_cmp", covers=["done"], store=0)],
          thorough=[run("C12_hist", covers=["done", "final-reopen"], store=1, k=4, opmask=mask(0, 1, 2, 7, 8, 9, 13), final_reopen=1, budget=1800),
                    run("C12_hist", covers=["done", "final-reopen"], store=1, k=4, opmask=mask(0, 2, 7, 9), final_reopen=1, emptyname=1, budget=1800),
-                   run("C12_hist", covers=["done"], store=0, k=5, opmask=mask(0, 7, 8, 9), final_reopen=0, budget=1800)],
+                   run("C12_hist", covers=["done"], store=0, k=5, opmask=mask(0, 7, 8, 9), final_reopen=0, budget=1800),
+                   run("C12_cmp", covers=["done"], store=1)],
          outside=["names other than a, b", "histories longer than K = 3..5 steps"],
          text=hist_txt + "Operations: SetCollection on new and existing names, RemoveCollection, Set/Delete through the handles returned, Flush, re-open. GetCollectionNames must be the sorted model name set, contents of every collection must equal its model, and after a final re-open only flushed changes are visible.",
          note=NOTE, technique=TECH, design_ref="DESIGN.md §4 C12")
@@ -166,6 +169,7 @@ def register(prop, run, KERNELS, C01_COVERS):
     prop("C08",
          quick=[run("C08_revert", covers=["done", "reverted-to-empty", "reverted-to-flush"], store=1, flushes=2, bigval=1, lean=1, cmps=2, unwind_violation=1, step_budget=400000),
                 run("C08_revert", covers=["done", "reverted-to-empty", "continued"], store=1, flushes=1, bigval=0, lean=0, unwind_violation=1, step_budget=400000),
+                run("C08_revert", covers=["done", "reverted-to-flush"], store=1, flushes=3, bigval=0, lean=1, rootsonly=1, unwind_violation=1, step_budget=800000),
                 run("C08_revert", covers=["memonly"], store=0, flushes=0, bigval=0, lean=0, unwind_violation=1)],
          thorough=[run("C08_revert", covers=["done", "reverted-to-empty", "reverted-to-flush", "continued"], store=1, flushes=2, bigval=0, lean=0, unwind_violation=1, step_budget=400000, budget=1800),
                    run("C08_revert", covers=["done", "reverted-to-empty", "reverted-to-flush"], store=1, flushes=3, bigval=1, lean=1, cmps=2, unwind_violation=1, step_budget=800000, budget=1800),
@@ -185,9 +189,11 @@ def register(prop, run, KERNELS, C01_COVERS):
 
     prop("C16",
          quick=[run("C16_enum", covers=["done", "empty"], nmax=4, store=0, cache=0, cmps=2),
+                run("C16_hist", covers=["done", "enumerated"], k=4),
                 run("C16_boundary", covers=["done"], nmin=1023, nmax=1026, rand_concrete=1, step_budget=60000000, budget=900,
                     note="engine-executed boundary sizes with concrete keys: not a solver claim over contents")],
          thorough=[run("C16_enum", covers=["done", "empty"], nmax=5, store=0, cache=0, cmps=2, budget=1800),
+                   run("C16_hist", covers=["done", "enumerated"], k=5, budget=1800),
                    run("C16_boundary", covers=["done"], nmin=1023, nmax=1026, rand_concrete=1, step_budget=60000000, budget=1800,
                        note="engine-executed boundary sizes with concrete keys: not a solver claim over contents"),
                    run("C16_boundary", covers=["done"], nmin=2047, nmax=2050, rand_concrete=1, step_budget=120000000, budget=1800,
